@@ -243,6 +243,14 @@ func (st *State) curThreadID() int {
 }
 
 func (st *State) abort(k abortKind, msg string) {
+	if k == abBound && st.violation == nil {
+		// a path that exhausts its loop / instruction budget may be a genuine non-termination: keep its inputs
+		// so that the driver can try it against the real build (confirmed only if that run hangs too)
+		func() {
+			defer func() { recover() }()
+			st.recordViolation("hang: "+msg+" (budget exhausted: possible non-termination)", "bound", nil)
+		}()
+	}
 	panic(pathAbort{k, msg})
 }
 
